@@ -138,7 +138,8 @@ def section_roles(P, F):
     decls = [x for x in F.walk() if x.get("k") == "VarDecl" and x.get("c") and x.get("n")]
     for x in decls:
         t = norm.render(P, x["c"][0], nocast=True).replace(" ", "")
-        for field, role in ((".fraction_of_section", "section_fraction"), (".section", "current_section"), (".segment", "current_segment")):
+        for field, role in ((".fraction_of_section", "section_fraction"), (".fraction_of_segment", "segment_fraction"), (".section", "current_section"),
+                            (".segment", "current_segment")):
             if t.endswith(field) and re.match(r"^[\w.]+$", t) and role not in roles:
                 roles[role] = x["n"]
     cur = roles.get("current_section")
@@ -839,3 +840,86 @@ def nearest_segment_selection(P, rep, rule="K.nearest"):
     else:
         rep.violation(rule, "the candidate's along-plane range is %s" % within, F.nloc(g), F.qn, "; ".join(within), "expected -tol <= along <= |segment length|",
                       key=rule + "|within", witness="a point beside the end of a segment")
+
+
+
+def segment_blend(P, rep, rule="I1.segment"):
+    """down-dip blend of the two ends of a segment, and what the models are handed"""
+    rep.rule(rule, "SubductingPlate/Fault::properties: a local U + f*(D - U) whose U and D are the section-interpolated values of components [0] and "
+                   "[1] of one segment table (start and end of the segment) uses f = the fraction along the segment; the length limit and the "
+                   "AdditionalParameters handed to the models are such interpolated locals, never a feature-wide field")
+    n = 0
+    for cls in LINE.values():
+        F = P.func(cls + "::properties")
+        roles = section_roles(P, F)
+        if "segment_fraction" not in roles or "section_fraction" not in roles:
+            raise AnalysisBroken("%s: fraction locals not identified" % F.qn)
+        decls = {x["r"]: x for x in F.walk() if x.get("k") == "VarDecl" and x.get("c")}
+        byname = {x.get("n"): k for k, x in decls.items()}
+        secf, segf = byname[roles["section_fraction"]], byname[roles["segment_fraction"]]
+
+        def uses(e, key):
+            return any(y.get("k") == "DeclRefExpr" and y.get("r") == key for y in F.walk(e))
+
+        def depends_on_section(key, depth=0):
+            d = decls.get(key)
+            if d is None or depth > 6:
+                return False
+            if uses(d["c"][0], secf):
+                return True
+            return any(y.get("k") == "DeclRefExpr" and y.get("r") in decls and y["r"] != key and depends_on_section(y["r"], depth + 1) for y in F.walk(d["c"][0]))
+        short = cls.split("::")[-1]
+        for key, d in decls.items():
+            e = sc(d["c"][0])
+            # U + f * (D - U)
+            if not (e.get("k") == "BinaryOperator" and e.get("op") == "+"):
+                continue
+            A, Bm = sc(e["c"][0]), sc(e["c"][1])
+            if Bm.get("k") != "BinaryOperator" or Bm.get("op") != "*":
+                A, Bm = Bm, A
+            if Bm.get("k") != "BinaryOperator" or Bm.get("op") != "*" or A.get("k") != "DeclRefExpr" or A.get("r") not in decls:
+                continue
+            f_, diff = sc(Bm["c"][0]), sc(Bm["c"][1])
+            if diff.get("k") != "BinaryOperator" or diff.get("op") != "-":
+                f_, diff = diff, f_
+            if diff.get("k") != "BinaryOperator" or diff.get("op") != "-" or f_.get("k") != "DeclRefExpr":
+                continue
+            Dn, Un = sc(diff["c"][0]), sc(diff["c"][1])
+            if not (Un.get("k") == "DeclRefExpr" and Un.get("r") == A["r"] and Dn.get("k") == "DeclRefExpr" and Dn.get("r") in decls):
+                continue
+            # U and D: interpolated between sections, components [0] and [1] of one table
+            tu = norm.render(P, decls[A["r"]]["c"][0], nocast=True).replace(" ", "")
+            td = norm.render(P, decls[Dn["r"]]["c"][0], nocast=True).replace(" ", "")
+            if not (uses(decls[A["r"]]["c"][0], secf) and uses(decls[Dn["r"]]["c"][0], secf)):
+                continue
+            n += 1
+            inst = "%s: %s = %s" % (short, d.get("n"), norm.render(P, e, nocast=True)[:80])
+            problems = []
+            if tu.replace("[0]", "[#]") != td.replace("[1]", "[#]") or "[0]" not in tu or "[1]" not in td:
+                problems.append("the two ends are not components [0] and [1] of one interpolated table")
+            if f_["r"] != segf:
+                problems.append("blended with %s, not with the fraction along the segment" % f_.get("n"))
+            if problems:
+                rep.violation(rule, inst + ": " + "; ".join(problems), F.nloc(d), F.qn, norm.render(P, e)[:160],
+                              "the value varies along the trench instead of down the segment: thickness / truncation of the feature is wrong between the ends of a segment",
+                              key="%s|%s|%s" % (rule, cls, d.get("n")), witness="a segment whose thickness or top truncation has two different values, point midway down the segment")
+            else:
+                rep.ok(rule, inst, F.nloc(d), F.qn)
+        # what the models receive
+        for x in F.walk():
+            if x.get("k") == "VarDecl" and "AdditionalParameters" in (x.get("t") or "") and x.get("c"):
+                elems = [z for z in F.walk(x["c"][0]) if z.get("k") == "InitListExpr"]
+                items = [sc(z) for z in (elems[0]["c"] if elems else [])]
+                n += 1
+                bad = []
+                for it in items:
+                    if it.get("k") == "DeclRefExpr" and it.get("r") in decls and depends_on_section(it["r"]):
+                        continue
+                    bad.append(norm.render(P, it)[:50])
+                if len(items) == 2 and not bad:
+                    rep.ok(rule, "%s: the models receive %s" % (short, norm.render(P, x["c"][0])[:80]), F.nloc(x), F.qn)
+                else:
+                    rep.violation(rule, "%s: the models receive %s" % (short, norm.render(P, x["c"][0])[:80]), F.nloc(x), F.qn, norm.render(P, x)[:160],
+                                  "%s is not a value interpolated between the two neighbouring sections: overriding one section changes answers beyond its neighbours" % (", ".join(bad) or "the initialiser"),
+                                  key="%s|%s|additional" % (rule, cls), witness="sections with different total lengths and a model that reads the slab length (mass conserving)")
+    rep.floor(rule, n, 6, "segment blends and model hand-overs in slab and fault")
